@@ -3,8 +3,9 @@ import Iota.Driver.C10
 import Iota.Driver.C15
 import Iota.Driver.Bech32
 import Iota.Driver.C19
+import Iota.Driver.Curl
 
 namespace Iota.Driver
 def allOps : List (String × Handler) :=
-  C14.ops ++ C10.ops ++ C15.ops ++ Bech32.ops ++ C19.ops
+  C14.ops ++ C10.ops ++ C15.ops ++ Bech32.ops ++ C19.ops ++ Curl.ops
 end Iota.Driver
